@@ -21,7 +21,7 @@ import Hs.Thm.C05perm
 -- against the reference reader for every well-formed value
 #print axioms Hs.C05.C05_reader_agrees
 #print axioms Hs.C05.C05_writer_conforms
-#print axioms Hs.C05.reader_meta_kind_tag
+#print axioms Hs.C05.reader_meta_kind_dict
 #print axioms Hs.C05.readDoc_lenient
 -- member order independence of the library's visitor model (Hs/Thm/C05perm.lean)
 #print axioms Hs.C05perm.visitMap_perm
